@@ -648,6 +648,7 @@ pub fn fgseeds(args: &Args) {
     let start = args.num("--start", 0);
     let count = args.num("--count", 1000);
     let nthreads = args.num("--threads", 16);
+    let minc = args.num("--minc", 0);
     let mut handles = vec![];
     for t in 0..nthreads {
         handles.push(std::thread::spawn(move || {
@@ -665,7 +666,10 @@ pub fn fgseeds(args: &Args) {
                 }
                 let evs = verif::end();
                 let verdicts: Vec<u8> = evs.iter().filter_map(|e| match e { Event::NtruCandidate { verdict, .. } => Some(*verdict as u8), _ => None }).collect();
-                if verdicts.contains(&5) || verdicts.contains(&4) {
+                if minc > 0 && verdicts.len() as u64 >= minc {
+                    println!("{{\"n\":{},\"seed\":{},\"ncand\":{}}}", n, i, verdicts.len());
+                }
+                if minc == 0 && (verdicts.contains(&5) || verdicts.contains(&4)) {
                     let mut rng = rand::rngs::StdRng::from_seed(seed);
                     for v in &verdicts {
                         let f = verif::gen_poly(n, &mut rng);
